@@ -413,9 +413,13 @@ class S256Point(Point):
     def parse_sec(cls, sec_bin):
         """returns a Point object from a SEC pubkey"""
         if sec_bin[0] == 4:
+            if len(sec_bin) != 65:
+                raise ValueError("uncompressed SEC format needs 65 bytes")
             x = int(sec_bin[1:33].hex(), 16)
             y = int(sec_bin[33:65].hex(), 16)
             return cls(x=x, y=y)
+        if sec_bin[0] not in (2, 3) or len(sec_bin) != 33:
+            raise ValueError(f"unknown SEC prefix or length: {sec_bin.hex()}")
         is_even = sec_bin[0] == 2
         x = S256Field(int(sec_bin[1:].hex(), 16))
         # right side of the equation y^2 = x^3 + 7
